@@ -240,10 +240,14 @@ inline Dec ref_decode(const Bytes &b) {
             uint64_t first = c.u64(), count = c.u32(), enc = c.u8();
             uint64_t res = c.u8() | c.u8() | c.u8();
             if (enc > 2) return rej("vertex-encoding");
-            if (enc == 0) return uns("vertex-encoding-none");
             if (res != 0) return rej("reserved-not-zero");
             if (first != vread) return rej("span-start");
             if (count > nV - vread) return rej("span-exceeds-total");
+            if (enc == 0) {  // topology-only span: no coordinates; the span rules above still apply, what the positions are is left open
+                if (c.left() != 0) return rej("vert-payload-size");
+                vread += count; unspec = true; unspec_rule = "vertex-encoding-none";
+                goto padding;
+            }
             size_t es = enc == 1 ? 4 : 8;
             if (c.left() != count * 3 * es) return rej("vert-payload-size");
             for (uint64_t i = 0; i < count; ++i) for (int k = 0; k < 3; ++k) {
